@@ -209,6 +209,20 @@ def inferCompress (axis : Option Int) (x c : ITy) : Res :=
             | some i => .ok [tensor xt.e (ds.set i .anon)]
   | _, _ => .ok [none]
 
+/-- `_Compress.infer_output_types` after the repair "Compress without axis reports a vector when the
+    input's rank is unknown" (the unknown-shape shortcut only applies when an axis is given; without an
+    axis the routine goes on to the condition-rank check and reports `[?]`). Known ranks: unchanged.
+    The harness probes which of the two variants the source under test implements and asks for it. -/
+def inferCompressFixed (axis : Option Int) (x c : ITy) : Res :=
+  match x, c with
+  | some xt, some ct =>
+    if ct.e ≠ .bool then .err .inference
+    else match xt.s, axis with
+      | none, some _ => .ok [some ⟨xt.e, none⟩]
+      | none, none => if condRankBad ct.s then .err .inference else .ok [tensor xt.e [.anon]]
+      | some _, _ => inferCompress axis x c
+  | _, _ => .ok [none]
+
 /-! ### ai.onnx: the Loop patch
 
 `A` = types of `v_initial` (= the types the body's carried arguments are declared with),
